@@ -416,6 +416,35 @@ func vH_C14(data []byte, fn int, bufmode int) {
 	vAssert(p1 == p2, "C14.same-offset")
 }
 
+// a real two-call history on one Buffer: whatever call A leaves behind in it - in whichever field -
+// call B must behave as with no buffer. With alias the caller refills its read buffer in place, so
+// the second input lives in the array the first call saw.
+func vH_C14_history(d1 []byte, d2 []byte, fnA int, fnB int, alias bool) {
+	buf := &Buffer{}
+	hA := &vHandler{whole: d1}
+	vCallBuf(fnA, d1, hA, buf)
+	in := d2
+	if alias {
+		n := copy(d1, d2)
+		in = d1[:n]
+	}
+	h1 := &vHandler{whole: in}
+	h2 := &vHandler{whole: in}
+	p1, err1 := vCallBuf(fnB, in, h1, nil)
+	p2, err2 := vCallBuf(fnB, in, h2, buf)
+	vReach("C14.history-compared")
+	if fnB >= 3 {
+		vAssert((err1 == nil) == (err2 == nil), "C14.hist.same-success")
+		if err1 == nil && err2 == nil {
+			vAssert(p1 == p2, "C14.hist.same-offset")
+			vAssert(h1.n == h2.n, "C14.hist.same-calls")
+		}
+		return
+	}
+	vAssert(err1 == err2, "C14.hist.same-error")
+	vAssert(p1 == p2, "C14.hist.same-offset")
+}
+
 // re-entrant sharing: the handler re-enters function `inner` with the very Buffer
 // of the enclosing call `outer`; compared with the all-nil run.
 func vH_C14_reentrant(data []byte, outer int, inner int, bufmode int) {
@@ -976,7 +1005,11 @@ func vH_C15_three(a []byte, b []byte, c []byte, w1, w2, w3 int) {
 	if e1 == nil {
 		want1, _, _ = vRefDecode(a, vSkipWS(a, 0))
 	}
-	vReaderCall(w2, &r, b)
+	g2, _, e2 := vReaderCall(w2, &r, b)
+	var want2 interface{}
+	if e2 == nil {
+		want2, _, _ = vRefDecode(b, vSkipWS(b, 0))
+	}
 	g3, p3, e3 := vReaderCall(w3, &r, c)
 	var fresh ValueReader
 	f3, fp3, fe3 := vReaderCall(w3, &fresh, c)
@@ -991,6 +1024,13 @@ func vH_C15_three(a []byte, b []byte, c []byte, w1, w2, w3 int) {
 		if e3 == nil {
 			vMutate(g3)
 			vAssert(vTreeEq(g1, want1), "C15.3.first-result-unchanged-after-mutation")
+		}
+	}
+	if e2 == nil {
+		vAssert(vTreeEq(g2, want2), "C15.3.second-result-unchanged")
+		if e3 == nil && e1 != nil {
+			vMutate(g3)
+			vAssert(vTreeEq(g2, want2), "C15.3.second-result-unchanged-after-mutation")
 		}
 	}
 }
